@@ -25,6 +25,9 @@ pub mod c14;
 pub mod c16;
 pub mod c17;
 pub mod c18;
+pub mod c19;
+pub mod c22;
+pub mod c24;
 pub mod c25;
 pub mod c26;
 pub mod c28;
